@@ -71,6 +71,7 @@ def run_case(case, ctx):
     rows_max = 0
     # publication stamps may lie in the future of the wall clock (forward-dated publications): they are stamps like any other
     base = datetime.datetime(2150, 1, 1) if case.get('future') else T0 + DAY * 100
+    working = {}
     batches, vi0 = [], 0
     for size in (case.get('batch') or [1] * len(case['versions'])):
         batches.append(list(range(vi0, vi0 + size))); vi0 += size
@@ -83,14 +84,33 @@ def run_case(case, ctx):
             idx = [dates[i] for i in ver['idx']]
             vals = [float('nan') if v is None else float(v) for v in ver['vals']]
             s = pd.Series(vals, index=pd.DatetimeIndex(idx), dtype=float)
-            bs.append(Bi(s, stamp))
+            if ver.get('as_frame'):
+                # the publisher hands over its working table (a one-column frame); when it covers the same dates as the last one it is that very object, amended in place
+                if working.get('idx') == idx and working.get('obj') is not None:
+                    tbl = working['obj']
+                    tbl.iloc[:, 0] = vals
+                else:
+                    tbl = pd.DataFrame({'px': vals}, index=pd.DatetimeIndex(idx), dtype=float)
+                working['obj'], working['idx'] = tbl, list(idx)
+                cols_before = list(tbl.columns)
+                bi_ = Bi(tbl, stamp)
+                ctx.check('merge_operands_unchanged', list(tbl.columns) == cols_before, lambda: 'Bi(table, stamp) wrote into the table it was given: columns %s -> %s' % (cols_before, list(tbl.columns)))
+                bs.append(bi_)
+            else:
+                bs.append(Bi(s, stamp))
             versions.append((stamp, s))
             stamps.append(stamp)
             for d, v in zip(idx, vals):
                 ledger.setdefault(d, []).append((stamp, v))
         snap_b = [(list(b.index), _vl(b)) for b in bs]
         snap_s = None if store is None else (list(store.index), store.values.tolist())
-        st, merged = ctx.call(bi_merge, store, bs[0] if len(bs) == 1 else list(bs))     # several versions handed over together, in order
+        if case.get('start_plain') and store is None and len(grp) == 2 and not any(case['versions'][g_].get('as_frame') for g_ in grp):
+            # a history started from a not-yet-bitemporal series: bi_merge(plain_old, plain_new, asof=t2, existing_data=t1)
+            (t1_, s1_), (t2_, s2_) = versions[-2], versions[-1]
+            st, merged = ctx.call(bi_merge, s1_, s2_, asof=t2_, existing_data=t1_)
+            ctx.cls('history_started_with_existing_data')
+        else:
+            st, merged = ctx.call(bi_merge, store, bs[0] if len(bs) == 1 else list(bs))     # several versions handed over together, in order
         if st == 'ok':
             okb = [(list(b.index), _vl(b)) for b in bs] == snap_b and (store is None or (list(store.index), _vl(store)) == (snap_s[0], _nl(snap_s[1])))
             ctx.check('merge_operands_unchanged', okb, lambda: 'bi_merge modified the store or the new version it was given')
@@ -215,6 +235,12 @@ def gen_case(rng):
         vals = [rng.choice(pool) for _ in idx]
         versions.append({'stamp': stamp, 'idx': idx, 'vals': vals})
     case = {'ndates': nd, 'versions': versions}
+    if rng.random() < 0.3:
+        for i_, v_ in enumerate(versions):
+            if rng.random() < 0.6:
+                v_['as_frame'] = True
+                if i_ and rng.random() < 0.5:
+                    v_['idx'] = list(versions[i_ - 1]['idx']); v_['vals'] = [rng.choice(pool) for _ in v_['idx']]
     if rng.random() < 0.25:
         case['future'] = True
     if rng.random() < 0.4:
@@ -223,6 +249,9 @@ def gen_case(rng):
             k = min(left, rng.choice([1, 1, 2, 3]))
             batch.append(k); left -= k
         case['batch'] = batch
+    elif rng.random() < 0.25 and nv >= 2 and versions[0]['stamp'] != versions[1]['stamp']:
+        case['batch'] = [2] + [1] * (nv - 2)
+        case['start_plain'] = True
     return case
 
 
